@@ -352,6 +352,20 @@ theorem f2r_congr {l l' : List Int} (h : l.Perm l') (z : Int) :
          joinWith ',' ((groups (sortInts (a' :: b' :: r'))).map (renderGroup z))
     rw [sortInts_congr h]
 
+/-- a bucket of two or more frames of one width is one sequence, built from the components -/
+theorem bucketSeqs_uniform (st : PadStyle) (b : SeqInfo) (w : Nat) (hlen : 2 ≤ b.frames.length)
+    (hw : ∀ f ∈ b.frames, f.frame.length = w) :
+    bucketSeqs st b =
+      [rebuild st b.dir b.base (framesToFrameRange (b.frames.map (·.num)) true 0) (padChars st w) b.ext] := by
+  rw [ListAux.bucketSeqs_multi st b hlen, sortByWidth_uniform b.frames w hw]
+  cases hf : b.frames with
+  | nil => rw [hf] at hlen; simp at hlen
+  | cons f1 r1 =>
+    have hh : (((f1 :: r1).head?.map (·.frame.length)).getD 0) = w := by
+      simp; exact hw f1 (by rw [hf]; exact List.mem_cons_self)
+    rw [hh, regroup_uniform w (f1 :: r1) [] [] (by rw [← hf]; exact hw)]
+    simp
+
 theorem bucketSeqs_equiv (st : PadStyle) (b b' : SeqInfo) (w : Nat)
     (hd : b.dir = b'.dir) (hb : b.base = b'.base) (he : b.ext = b'.ext) (hp : b.padding = b'.padding)
     (hperm : b.frames.Perm b'.frames) (hw : ∀ f ∈ b.frames, f.frame.length = w) :
